@@ -390,34 +390,43 @@ class PointingStatus:
             self.parameter_command_answer = 5
             return
 
-        start_time = utils.mjd_to_date(utils.string_to_real(command[18:26], 2))
-        start_time += self.time_source_offset
+        try:
+            start_time = utils.mjd_to_date(
+                utils.string_to_real(command[18:26], 2)
+            )
+            start_time += self.time_source_offset
+        except (ValueError, OverflowError):
+            # The start time is not a representable date
+            self.parameter_command_answer = 5
+            return
 
         if load_mode == 2 and start_time != self.start_time:
             self.parameter_command_answer = 5
             return
 
-        with self.lock:
-            if load_mode == 1:
-                self.relative_times = []
-                self.azimuth_positions = []
-                self.elevation_positions = []
-
-            relative_times = deepcopy(self.relative_times)
-            azimuth_positions = deepcopy(self.azimuth_positions)
-            elevation_positions = deepcopy(self.elevation_positions)
+        # The received entries are validated on copies of the stored table,
+        # which is replaced only when the whole command has been accepted
+        if load_mode == 1:
+            relative_times = []
+            azimuth_positions = []
+            elevation_positions = []
+        else:
+            with self.lock:
+                relative_times = deepcopy(self.relative_times)
+                azimuth_positions = deepcopy(self.azimuth_positions)
+                elevation_positions = deepcopy(self.elevation_positions)
 
         azimuth_max_rate = utils.string_to_real(command[26:34], 2)
         elevation_max_rate = utils.string_to_real(command[34:42], 2)
 
         byte_entries = command[42:]
 
+        expected_delta = None
+        last_relative_time = None
         if relative_times:
-            expected_delta = relative_times[1] - relative_times[0]
             last_relative_time = relative_times[-1]
-        else:
-            expected_delta = None
-            last_relative_time = 0
+            if len(relative_times) > 1:
+                expected_delta = relative_times[1] - relative_times[0]
 
         for i in range(sequence_length):
             offset = i * 20
@@ -426,19 +435,17 @@ class PointingStatus:
                 byte_entries[offset:offset + 4]
             )
 
-            if i == 0 and last_relative_time == 0 and relative_time != 0:
-                self.parameter_command_answer = 5
-                return
-
-            if relative_time < last_relative_time:
-                self.parameter_command_answer = 5
-                return
-
-            if not expected_delta and relative_times:
-                expected_delta = relative_time - last_relative_time
-
-            if expected_delta:
-                if relative_time - last_relative_time != expected_delta:
+            if last_relative_time is None:
+                # The first entry of a new table
+                if relative_time != 0:
+                    self.parameter_command_answer = 5
+                    return
+            else:
+                # Entries must be equally spaced and strictly increasing
+                delta = relative_time - last_relative_time
+                if expected_delta is None:
+                    expected_delta = delta
+                if delta <= 0 or delta != expected_delta:
                     self.parameter_command_answer = 5
                     return
 
@@ -449,21 +456,45 @@ class PointingStatus:
                 byte_entries[offset + 4:offset + 12],
                 2
             )
-            azimuth_positions.append(azimuth_position)
-
             elevation_position = utils.string_to_real(
                 byte_entries[offset + 12:offset + 20],
                 2
             )
+            for position in (azimuth_position, elevation_position):
+                # Positions are handled as INT32 microdegrees (False for NaN)
+                if not abs(1000000 * position) <= 2**31 - 1:
+                    self.parameter_command_answer = 5
+                    return
+            azimuth_positions.append(azimuth_position)
             elevation_positions.append(elevation_position)
 
-        self.parameter_command_answer = 1
+        if len(relative_times) < 4:
+            # A cubic spline needs at least 4 points
+            self.parameter_command_answer = 5
+            return
 
-        self.start_time = start_time
-        self.end_time = (
-            start_time
-            + timedelta(milliseconds=relative_times[-1])
+        try:
+            end_time = start_time + timedelta(milliseconds=relative_times[-1])
+        except OverflowError:
+            # The track would end after the last representable date
+            self.parameter_command_answer = 5
+            return
+        last_coordinates = (
+            int(round(1000000 * azimuth_positions[-1])),
+            int(round(1000000 * elevation_positions[-1]))
         )
+        az_tck = interpolate.splrep(
+            np.array(relative_times),
+            np.array(azimuth_positions)
+        )
+        el_tck = interpolate.splrep(
+            np.array(relative_times),
+            np.array(elevation_positions)
+        )
+
+        # The command is valid: from now on nothing can fail
+        self.start_time = start_time
+        self.end_time = end_time
         self.azimuth_max_rate = azimuth_max_rate
         self.elevation_max_rate = elevation_max_rate
 
@@ -481,26 +512,18 @@ class PointingStatus:
             self.elevation.ptState = 2
 
         self.ptInterpolMode = interpolation_mode
-        self.ptTableLength = sequence_length
         self.ptEndTableIndex += sequence_length
 
         with self.lock:
-            self.relative_times = deepcopy(relative_times)
-            self.azimuth_positions = deepcopy(azimuth_positions)
-            self.elevation_positions = deepcopy(elevation_positions)
-            self.last_coordinates = (
-                int(round(1000000 * self.azimuth_positions[-1])),
-                int(round(1000000 * self.elevation_positions[-1]))
-            )
+            self.relative_times = relative_times
+            self.azimuth_positions = azimuth_positions
+            self.elevation_positions = elevation_positions
+            self.ptTableLength = len(relative_times)
+            self.last_coordinates = last_coordinates
+            self.az_tck = az_tck
+            self.el_tck = el_tck
 
-        self.az_tck = interpolate.splrep(
-            np.array(relative_times),
-            np.array(azimuth_positions)
-        )
-        self.el_tck = interpolate.splrep(
-            np.array(relative_times),
-            np.array(elevation_positions)
-        )
+        self.parameter_command_answer = 1
 
     @property
     def confVersion(self):
